@@ -5,7 +5,7 @@ from . import decls as D
 
 I64 = (1 << 63) - 1
 
-CORPUS_VERSION = 12
+CORPUS_VERSION = 13
 
 AS = ['match', 'table', None, 'auto']  # None = parameter omitted (auto); 'auto' = written explicitly
 IT_G = ['range', 'next_and_back', 'table', 'table_inline', None, 'auto']
@@ -420,9 +420,124 @@ def build(tier, seed):
             a, f, t = rnd.choice(AS), rnd.choice(AS), rnd.choice(AS)
             it = rnd.choice(IT_G if gapless else IT_H)
             add(d, D.full_config(a, f, t, it, True, split=rnd.choice([1, 2, 3])), kind='random')
+    # ---- random members over the product of ALL dimensions (own generator, so the fixed part above does not move)
+    rr = random.Random(seed * 7919 + 17)
+    for _ in range(300 if tier == 'quick' else 3000):
+        d, c = random_instance(rr)
+        add(d, c, kind='mix', classes=['ctx=%s' % d.get('context'), 'enum=%s' % d.get('enum_name', 'E')])
     for i, x in enumerate(insts):
         x['id'] = 'm%04d' % i
     return insts
+
+ENUM_NAMES = ['E', 'E', 'E', 'E', 'Iterator', 'Option', 'Some', 'None', 'Result', 'Ok', 'Err', 'FromStr', 'TryFrom', 'IntoIterator', 'Self_', 'e', 'Ünum', 'X9']
+CONTEXTS = [None, None, None, None, None, 'fn', 'block', 'const', 'implfn', 'traitfn', 'closure', 'macro', 'macro_tt']
+STRUCT_NAMES = [None, None, None, 'S', 'Iterator', 'Some', 'IntoIterator', 'Iter', 'my_struct', 'Ω']
+
+def random_values(rr, r):
+    lo, hi = D.dom_bounds(r)
+    vs = [v for v in _random_values(rr, r) if lo <= v <= hi]
+    return vs or [lo]
+
+def _random_values(rr, r):
+    lo, hi = D.dom_bounds(r)
+    bits = D.repr_bits(r)
+    anchors = [0, lo, hi, 1, -1 if lo < 0 else 2]
+    for w in (8, 16, 32, 64):
+        if w < bits:
+            anchors += [(1 << w) - 1, 1 << (w - 1), (1 << w)] + ([-(1 << (w - 1))] if lo < 0 else [])
+    anchors = [a for a in anchors if lo <= a <= hi]
+    n = rr.choice([1, 2, 2, 3, 3, 4, 5, 8, 13, 40, 130])
+    shape = rr.choice(['gapless', 'holes', 'holes', 'singletons', 'two-anchors'])
+    a = rr.choice(anchors)
+    if shape == 'gapless':
+        b = max(lo, min(a - rr.randrange(0, n + 1), hi - n + 1))
+        return list(range(b, b + n))
+    if shape == 'singletons':
+        step = rr.choice([2, 3, 256, 65536])
+        b = max(lo, min(a, hi - step * n))
+        return [b + step * i for i in range(n)]
+    span = n + rr.choice([1, 2, 5, 200])
+    b = max(lo, min(a - rr.randrange(0, span), hi - span))
+    vals = set(rr.sample(range(b, b + span + 1), min(n, span + 1)))
+    if shape == 'two-anchors':
+        a2 = rr.choice(anchors)
+        vals |= {v for v in (a2 - 1, a2, a2 + 1) if lo <= v <= hi and rr.random() < 0.7}
+    return sorted(vals) or [a]
+
+def random_instance(rr):
+    r = rr.choice(D.REPRS)
+    vals = random_values(rr, r)
+    n = len(vals)
+    order = rr.choice(['asc', 'desc', 'shuf', 'runshuf'])
+    spelling = 'explicit'
+    if order == 'asc':
+        spelling = rr.choice(['explicit', 'mixed', 'fancy'] + (['implicit'] if vals == list(range(0, n)) else []))
+    elif order in ('desc', 'shuf'):
+        spelling = rr.choice(['explicit', 'fancy'])
+    naming = rr.choice(['default', 'default', 'hostile', 'dup', 'swap', 'idents', 'prefix', 'featnames'])
+    cx = rr.choice(CONTEXTS)
+    vis = '' if cx in D.BODY_CONTEXTS else rr.choice(['pub', 'pub(crate)', '', 'pub(super)'] + ([] if cx else ['pub(in crate::MOD)']))
+    if cx in ('macro', 'macro_tt') and vis == '':
+        vis = 'pub(crate)'
+    d = D.make_decl(r, 'mix', vals, order, spelling, naming, rr, vis=vis)
+    if cx:
+        d['context'] = cx
+    en = rr.choice(ENUM_NAMES)
+    if en != 'E':
+        d['enum_name'] = en
+    gap = d['gapless']
+    # configuration: a random feature set closed under the documented requirement (range needs iter), random modes and parameters
+    feats = [f for f in D.ALL_FEATURES if rr.random() < rr.choice([0.3, 0.6, 1.0])] or ['into']
+    if naming == 'featnames':
+        feats = [f for f in feats if f not in ('MIN', 'MAX')] or ['next']
+    if 'range' in feats and 'iter' not in feats:
+        feats.append('iter')
+    modes = {}
+    for f in ('as_str', 'from_str', 'FromStr'):
+        modes[f] = rr.choice(AS)
+    modes['iter'] = rr.choice(IT_G if gap else IT_H)
+    if n > 200 and modes['iter'] == 'table_inline':
+        modes['iter'] = 'table'
+    if modes['iter'] == 'table_inline':
+        feats = [f for f in feats if f != 'range']
+    params = {}
+    narrow = {'pub': ['', 'pub(crate)', 'pub'], 'pub(crate)': ['', 'pub(crate)'], 'pub(super)': ['', 'pub(crate)']}.get(vis, [''])
+    used_names = set()
+    for f in feats:
+        if f not in D.HAS_NAME_VIS:
+            continue
+        p = {}
+        if rr.random() < 0.3:
+            # an iterator struct may not be more visible than the enum (E0446); functions, constants and the names struct may
+            p['vis'] = rr.choice(narrow if f in ('iter', 'range') else ['', 'pub(crate)', 'pub'])
+        if rr.random() < 0.25:
+            nm = rr.choice(['my_' + f.lower(), f + '_2', 'ß_' + f.lower(), 'r#' + f.lower() if False else 'x' + f.lower()])
+            if nm not in used_names:
+                p['name'] = nm; used_names.add(nm)
+        if f in D.HAS_STRUCT_NAME and rr.random() < 0.4:
+            sn = rr.choice(STRUCT_NAMES)
+            if sn and sn != d.get('enum_name') and sn not in used_names:
+                p['struct_name'] = sn; used_names.add(sn)
+        if p:
+            params[f] = p
+    if 'iter' in params and 'names' in params and params['iter'].get('struct_name') == params['names'].get('struct_name'):
+        params['names'].pop('struct_name', None)
+    rr.shuffle(feats)
+    c = D.config(feats, {k: v for k, v in modes.items() if k in feats}, params, split=rr.choice([1, 1, 2, 3, 5]))
+    c['repr_pos'] = rr.choice(['last', 'first', 'middle'])
+    # sorted(..) where the declaration happens to satisfy it
+    decl_vals = [v['value'] for v in d['variants']]
+    nm = [D.decl_name(d, v).encode('utf8') for v in d['variants']]
+    by_value = all(a < b for a, b in zip(decl_vals, decl_vals[1:]))
+    by_name = all(a < b for a, b in zip(nm, nm[1:]))
+    if rr.random() < 0.5:
+        sp = {}
+        if by_value and rr.random() < 0.8:
+            sp['value'] = True
+        if by_name and rr.random() < 0.8:
+            sp['name'] = True
+        c['features'] = [('sorted', sp)] + c['features']
+    return d, c
 
 def write_workspace(root, insts, repo='/repo', shards=16, crate_prefix='s', hostile=False):
     os.makedirs(root, exist_ok=True)
